@@ -20,6 +20,8 @@ type fixedCodec struct {
 	put                func(v abiref.Value, data []byte) error
 	dec                func(b []byte) (abiref.Value, error)
 	exact              bool // the decoder demands exactly the ABI size
+	// decUsed (optional) decodes into a receiver that holds prev, for decoders that fill a caller's value
+	decUsed func(prev abiref.Value, b []byte) (abiref.Value, error)
 }
 
 var fixedCodecs = []fixedCodec{
@@ -33,7 +35,14 @@ var fixedCodecs = []fixedCodec{
 			v := abiref.NewValue()
 			v.U["size"], v.G["guid"] = uint64(f.Size), abiref.GUID(f.GUID)
 			return v, err
-		}, false},
+		}, false,
+		func(prev abiref.Value, b []byte) (abiref.Value, error) {
+			f := abi.FwGUIDEntry{Size: uint16(prev.U["size"]), GUID: uuid.UUID(prev.G["guid"])}
+			err := f.PopulateFromBytes(b)
+			v := abiref.NewValue()
+			v.U["size"], v.G["guid"] = uint64(f.Size), abiref.GUID(f.GUID)
+			return v, err
+		}},
 	{"abi.SevMetadataSection.Put", "abi.SevMetadataSectionFromBytes", abiref.SevSection,
 		func(v abiref.Value, d []byte) error {
 			return (&abi.SevMetadataSection{Address: uint32(v.U["address"]), Length: uint32(v.U["length"]), Kind: uint32(v.U["kind"])}).Put(d)
@@ -43,7 +52,7 @@ var fixedCodecs = []fixedCodec{
 			v := abiref.NewValue()
 			v.U["address"], v.U["length"], v.U["kind"] = uint64(s.Address), uint64(s.Length), uint64(s.Kind)
 			return v, nil
-		}, false},
+		}, false, nil},
 	{"abi.SevMetadata.Put", "abi.SevMetadataFromBytes", abiref.SevMetadata,
 		func(v abiref.Value, d []byte) error {
 			return (&abi.SevMetadata{Signature: uint32(v.U["signature"]), Length: uint32(v.U["length"]), Version: uint32(v.U["version"]), Sections: uint32(v.U["sections"])}).Put(d)
@@ -53,7 +62,7 @@ var fixedCodecs = []fixedCodec{
 			v := abiref.NewValue()
 			v.U["signature"], v.U["length"], v.U["version"], v.U["sections"] = uint64(s.Signature), uint64(s.Length), uint64(s.Version), uint64(s.Sections)
 			return v, nil
-		}, false},
+		}, false, nil},
 	{"abi.MetadataOffset.Put", "abi.MetadataOffsetFromBytes", abiref.MetaOffset,
 		func(v abiref.Value, d []byte) error {
 			return (&abi.MetadataOffset{Offset: uint32(v.U["offset"]), GUIDEntry: abi.FwGUIDEntry{Size: uint16(v.U["size"]), GUID: uuid.UUID(v.G["guid"])}}).Put(d)
@@ -66,7 +75,7 @@ var fixedCodecs = []fixedCodec{
 			}
 			v.U["offset"], v.U["size"], v.G["guid"] = uint64(s.Offset), uint64(s.GUIDEntry.Size), abiref.GUID(s.GUIDEntry.GUID)
 			return v, nil
-		}, false},
+		}, false, nil},
 	{"abi.TDXMetadataDescriptor.Put", "abi.TDXMetadataDescriptorFromBytes", abiref.TDXDesc,
 		func(v abiref.Value, d []byte) error {
 			return (&abi.TDXMetadataDescriptor{Signature: uint32(v.U["signature"]), Length: uint32(v.U["length"]), Version: uint32(v.U["version"]), SectionCount: uint32(v.U["section_count"])}).Put(d)
@@ -79,7 +88,7 @@ var fixedCodecs = []fixedCodec{
 			}
 			v.U["signature"], v.U["length"], v.U["version"], v.U["section_count"] = uint64(s.Signature), uint64(s.Length), uint64(s.Version), uint64(s.SectionCount)
 			return v, nil
-		}, false},
+		}, false, nil},
 	{"abi.TDXMetadataSection.Put", "abi.TDXMetadataSectionFromBytes", abiref.TDXSection,
 		func(v abiref.Value, d []byte) error { return tdxSection(v).Put(d) },
 		func(b []byte) (abiref.Value, error) {
@@ -88,7 +97,7 @@ var fixedCodecs = []fixedCodec{
 				return abiref.NewValue(), err
 			}
 			return tdxSectionValue(s), nil
-		}, false},
+		}, false, nil},
 }
 
 func tdxSection(v abiref.Value) *abi.TDXMetadataSection {
@@ -196,6 +205,22 @@ func checkFixed(q *x, fc fixedCodec, v abiref.Value) {
 		c.Cell("%s|decode(encode)|same value", name)
 	}
 	_ = enc
+	if fc.decUsed != nil { // the same into a receiver that holds another value
+		prev := randValue(q, fc.lay)
+		var g3 abiref.Value
+		var e4 error
+		if q.must(fc.entryDec, func() { g3, e4 = fc.decUsed(prev, want) }) {
+			wit := map[string]any{"value": fmt.Sprint(v), "reference_encoding": hx(want), "receiver_held": fmt.Sprint(prev)}
+			if e4 != nil {
+				q.viol(fc.entryDec, "valid-encoding-refused", wit, "%s: decoder refuses the valid encoding %s into a receiver that holds another value: %v", name, hx(want), e4)
+			} else if ok, why := fc.lay.Equal(g3, v); !ok {
+				q.viol(fc.entryDec, "decoded-value-depends-on-receiver", wit, "%s: decode(encode(v)) != v when decoding into a receiver that held %v: %s", name, prev, why)
+			} else {
+				seen("decode-into-used-receiver-inverts-encode")
+				c.Cell("%s|decode(encode) into a receiver the caller built holding another value|same value", name)
+			}
+		}
+	}
 	// truncations
 	for _, n := range q.shorter(S) {
 		var e2 error
@@ -243,7 +268,7 @@ func caseGUID(q *x) {
 			o := abiref.NewValue()
 			o.G["guid"] = abiref.GUID(u)
 			return o, err
-		}, true}, v)
+		}, true, nil}, v)
 	// the structured form
 	var eg abi.EFIGUID
 	if !q.must("abi.FromUUID", func() { eg = abi.FromUUID(uuid.UUID(g)) }) {
@@ -266,7 +291,7 @@ func caseGUID(q *x) {
 			o := abiref.NewValue()
 			o.G["guid"] = abiref.GUID(u)
 			return o, err
-		}, true}, v)
+		}, true, nil}, v)
 	_ = want
 }
 
@@ -292,7 +317,7 @@ func caseResetBlock(q *x) {
 			}
 			o.G["guid"] = abiref.GUID(s.Guid)
 			return o, nil
-		}, true}
+		}, true, nil}
 	v := randValue(q, abiref.ResetBlock)
 	checkFixed(q, codec, v)
 
